@@ -68,11 +68,15 @@ func isPointStruct(t reflect.Type) bool {
 
 // enc walks any gnark-crypto value and returns its raw JSON form.
 func enc(v reflect.Value) any {
-	for v.Kind() == reflect.Ptr {
+	for v.Kind() == reflect.Ptr || v.Kind() == reflect.Interface {
 		v = v.Elem()
 	}
 	t := v.Type()
 	switch {
+	case t.Kind() == reflect.String:
+		return v.String()
+	case t.Kind() == reflect.Slice && t.Elem().Kind() == reflect.Uint8:
+		return bytesToInts(v.Bytes())
 	case isElem(t):
 		return digits(rawOfElem(v))
 	case t.Kind() == reflect.Struct:
